@@ -1,7 +1,7 @@
 (* C01 - property theorems (statements only; the proofs live in Acme.C01.ProofsXxx / Acme.C07.ProofsXxx). *)
 From Coq Require Import ZArith List Sorted.
 From Acme.C01 Require Import Layout State Model ProofsLayout ProofsInv Refuted ProofsT1 ProofsSpec ProofsFrame ProofsAccept Examples.
-From Acme.C07 Require Import Proofs ProofsReg ProofsFinal ProofsEffect ProofsRange ProofsNames.
+From Acme.C07 Require Import Proofs ProofsReg ProofsFinal ProofsEffect ProofsRange ProofsNames ProofsTotal.
 Open Scope Z_scope.
 
 (* the boolean predicate evaluated on the implementation's snapshots is the declarative one *)
@@ -275,3 +275,38 @@ Theorem insert_detached_accepted_iff_fits : forall s m x b, InvA s -> InvM s -> 
   (is_ok (snd (step_insert s m x b)) <-> fits_insert s m x b).
 Proof. exact insert_detached_accepted_iff. Qed.
 Print Assumptions insert_detached_accepted_iff_fits.
+
+(* Totality under the invariants and the final hypotheses, for all 29 operations: the result is a shift
+   distance, ROk, or a refusal (an error cause / an unusable handle) that leaves the state as it was
+   (for AddValue: as it was after the creation of the value object, [pre_state]). In particular the model's
+   Panic result - a Go panic - is unreachable, and a refused operation changes nothing. *)
+Theorem result_shape : forall s o, InvA s -> InvM s -> InvR s -> ok_op_f s o ->
+  (exists d, snd (step s o) = RShift d) \/ snd (step s o) = ROk
+  \/ (refused (snd (step s o)) /\ fst (step s o) = pre_state s o).
+Proof. exact ProofsTotal.result_shape. Qed.
+Print Assumptions result_shape.
+
+Theorem no_panic : forall s o, InvA s -> InvM s -> InvR s -> ok_op_f s o -> snd (step s o) <> RPanic.
+Proof. exact ProofsTotal.no_panic. Qed.
+Print Assumptions no_panic.
+
+Theorem no_panic_reachable : forall ops o, ok_hist_f (ops ++ o :: nil) -> snd (step (run ops) o) <> RPanic.
+Proof. exact ProofsTotal.no_panic_reachable. Qed.
+Print Assumptions no_panic_reachable.
+
+Theorem refused_same : forall s o, InvA s -> InvM s -> InvR s -> ok_op_f s o ->
+  refused (snd (step s o)) -> fst (step s o) = pre_state s o.
+Proof. exact ProofsTotal.refused_same. Qed.
+Print Assumptions refused_same.
+
+(* Message.RemoveSignal is accepted exactly for a signal of the layout tree of the message; RemoveAllSignals,
+   CompactSignals and ClearAllSignalGroups have no refusing path *)
+Theorem remove_accepted_iff : forall s m x, InvA s -> InvM s -> InvR s ->
+  (is_ok (snd (step_remove s m x)) <-> in_tree s m x).
+Proof. exact ProofsTotal.remove_accepted_iff. Qed.
+Print Assumptions remove_accepted_iff.
+
+Theorem always_accepted : forall s m u,
+  is_ok (snd (step_remove_all s m)) /\ is_ok (snd (step_compact s m)) /\ is_ok (snd (step_mux_clear_all s u)).
+Proof. exact ProofsTotal.always_accepted. Qed.
+Print Assumptions always_accepted.
